@@ -690,8 +690,18 @@ class NetstringSocket:
 
         if size > maxsize:
             raise NetstringMessageTooLong(size, maxsize)
-        payload = self.bsock.recv_size(size)
-        if self.bsock.recv(1) != b',':
+        # bytes consumed so far; un-read if a Timeout interrupts the
+        # message so that the framing survives and read_ns can be retried
+        consumed = size_prefix + b':'
+        try:
+            payload = self.bsock.recv_size(size)
+            consumed += payload
+            trailer = self.bsock.recv(1)
+        except Timeout:
+            with self.bsock._recv_lock:
+                self.bsock.rbuf = consumed + self.bsock.rbuf
+            raise
+        if trailer != b',':
             raise NetstringProtocolError("expected trailing ',' after message")
 
         return payload
